@@ -168,12 +168,22 @@ pub fn signals(ev: &FwdEvent) -> Signals {
 }
 
 pub fn signals_of(avs: &[Av], pad_sigma: f64) -> Signals {
+    signals_of_opts(avs, pad_sigma, true)
+}
+
+/// `crosstalk = false`: no induction on neighbouring wires - with a pad spread below a third of
+/// a pad (`pad_sigma` <= 0.0012) every hit is exactly one response function on one wire and one
+/// pad, which the deconvolution recovers in exactly the time bin it was put in.
+pub fn signals_of_opts(avs: &[Av], pad_sigma: f64, crosstalk: bool) -> Signals {
     let d = data();
     let mut wires: BTreeMap<usize, Vec<f64>> = BTreeMap::new();
     let mut pads: BTreeMap<(usize, usize), Vec<f64>> = BTreeMap::new();
     for av in avs {
         let (w, b, z) = (av.wire % 256, av.bin, av.z);
         for dd in -4i64..=4 {
+            if !crosstalk && dd != 0 {
+                continue;
+            }
             let j = ((w as i64 + dd).rem_euclid(256)) as usize;
             let f = NEIGHBOR[dd.unsigned_abs() as usize];
             let s = wires.entry(j).or_insert_with(|| vec![0.0; N_WIRE_BINS]);
@@ -204,6 +214,51 @@ pub fn signals_of(avs: &[Av], pad_sigma: f64) -> Signals {
                 s[b + m] += av.pad_amp * g * rv;
             }
         }
+    }
+    Signals { wires, pads }
+}
+
+/// Isochronous hits in ONE pad column: its 8 wires each see an avalanche in time bins `t0` and
+/// `t0 + 1` (with the cross-talk among these wires), the 17 pads `first_row..first_row + 17` of
+/// the column see peaks on the odd and valleys on the even rows one bin later, and the read-out
+/// window closes right after the hits. The library recovers 16 space points with only two drift
+/// radii - a degenerate geometry for the circle fit.
+pub fn isochronous_column(column: usize, first_row: usize, t0: usize, scale: f64) -> Signals {
+    let d = data();
+    let mut wires: BTreeMap<usize, Vec<f64>> = BTreeMap::new();
+    let len = t0 + 4;
+    let ideal: Vec<Vec<f64>> = (0..8)
+        .map(|k| {
+            let (x0, x1) = (scale * (100.0 + 10.0 * k as f64), scale * (185.0 - 10.0 * k as f64));
+            (0..len)
+                .map(|n| {
+                    let mut s = 0.0;
+                    if n >= t0 {
+                        s += x0 * d.wire_resp.get(n - t0).copied().unwrap_or(0.0);
+                    }
+                    if n >= t0 + 1 {
+                        s += x1 * d.wire_resp.get(n - t0 - 1).copied().unwrap_or(0.0);
+                    }
+                    s
+                })
+                .collect()
+        })
+        .collect();
+    for k in 0..8usize {
+        let wire = (column * 8 + 8 + k) % 256;
+        let v: Vec<f64> = (0..len).map(|n| (0..8usize).map(|j| NEIGHBOR.get(k.abs_diff(j)).copied().unwrap_or(0.0) * ideal[j][n]).sum()).collect();
+        wires.insert(wire, v);
+    }
+    let mut pads: BTreeMap<(usize, usize), Vec<f64>> = BTreeMap::new();
+    let samples = (t0 + 11).min(N_PAD_BINS);
+    for j in 0..17usize {
+        let row = first_row + j;
+        if row >= 576 {
+            break;
+        }
+        let x = scale * if j % 2 == 0 { 300.0 } else { 600.0 + 25.0 * (j / 2) as f64 };
+        let v: Vec<f64> = (0..samples).map(|n| if n >= t0 + 1 { x * d.pad_resp.get(n - t0 - 1).copied().unwrap_or(0.0) } else { 0.0 }).collect();
+        pads.insert((column % 32, row), v);
     }
     Signals { wires, pads }
 }
@@ -269,7 +324,8 @@ pub fn banks_of_run(sig: &Signals, run: u32, trg_timestamp: u32, noise: f64, noi
         let mut cs: Vec<PwbChannel> = chans.into_iter().map(|(pc, wf)| PwbChannel { readout_index: readout_of_pad_channel(pc), count_field: None, samples: wf }).collect();
         cs.sort_by_key(|c| c.readout_index);
         // (at most 511 samples can be requested)
-        let req = (pad_delay + N_PAD_BINS).min(511);
+        let pad_bins = sig.pads.values().map(|v| v.len()).max().unwrap_or(N_PAD_BINS);
+        let req = (pad_delay + pad_bins).min(511);
         for c in cs.iter_mut() {
             c.samples.truncate(req);
         }
